@@ -19,20 +19,26 @@ H(r) == hist' = Append(hist, r)
 Done == hist # <<>> /\ hist[Len(hist)].op \in {"RoundTrip", "FamilyRT"}
 
 \* a property map: none, the plain value, or (once per graph) a boundary token
-PropChoices(key) == {<<>>, [x \in {key} |-> Plain]} \cup (IF used THEN {} ELSE {[x \in {key} |-> t] : t \in Tokens})
+\* "hierfocus" \in Extras: plain :A nodes with p = 7, plain relationships -- the hierarchy declaration is what varies
+Focus == "hierfocus" \in Extras
+PropChoices(key) == IF Focus THEN (IF key = "p" THEN {[x \in {key} |-> Plain]} ELSE {<<>>})
+                    ELSE {<<>>, [x \in {key} |-> Plain]} \cup (IF used THEN {} ELSE {[x \in {key} |-> t] : t \in Tokens})
 Uses(p) == \E k \in DOMAIN p : p[k] # Plain
-LabelChoices == {<<>>, <<"A">>, <<"A", "B">>}
+LabelChoices == IF Focus THEN {<<"A">>} ELSE {<<>>, <<"A">>, <<"A", "B">>}
+StubChoices == IF Focus THEN {FALSE} ELSE BOOLEAN
+\* a declaration may name a type without any relationship (yet), or two types of which one is empty
+HierTypeChoices == {<<"R">>, <<"S">>, <<"R", "S">>}
 NextNode == Cardinality(Handles(G.nodes)) + 1
 RelCount == Len(SelectSeq(hist, LAMBDA r : r.op = "Rel"))
 
 Build ==
      \/ /\ NextNode <= MaxNodes
-        /\ \E ls \in LabelChoices, p \in PropChoices("p"), stub \in BOOLEAN :
+        /\ \E ls \in LabelChoices, p \in PropChoices("p"), stub \in StubChoices :
               /\ (stub => ls # <<>>)
               /\ AddNode(NextNode, ls, p, stub) /\ used' = (used \/ Uses(p))
               /\ H([op |-> "Node", h |-> NextNode, labels |-> ls, props |-> p, via |-> IF stub THEN "stub" ELSE "api"])
      \/ /\ RelCount < MaxRels
-        /\ \E s, d \in Handles(G.nodes), ty \in {"R", "S"}, p \in PropChoices("w"), stub \in BOOLEAN :
+        /\ \E s, d \in Handles(G.nodes), ty \in {"R", "S"}, p \in PropChoices("w"), stub \in StubChoices :
               /\ (stub => p = <<>>)
               /\ AddRel(RelCount + 1, s, d, ty, p) /\ used' = (used \/ Uses(p))
               /\ H([op |-> "Rel", h |-> RelCount + 1, src |-> s, dst |-> d, type |-> ty, props |-> p, via |-> IF stub THEN "stub" ELSE "api"])
@@ -46,16 +52,17 @@ Build ==
         /\ Compact /\ UNCHANGED used /\ H([op |-> "Compact"])
      \/ /\ "compact" \in Extras
         /\ \E h \in Handles(G.rels) : DelRel(h) /\ UNCHANGED used /\ H([op |-> "DelRel", h |-> h])
-     \/ /\ "hier" \in Extras /\ G.hier = {} /\ Handles(G.rels) # {}
-        /\ \E m \in {"", "p"} :
-              /\ DeclareHier("hx", {"R"}, m, IF m = "" THEN {} ELSE {"sum", "max"}) /\ UNCHANGED used
-              /\ H([op |-> "Hier", name |-> "hx", types |-> <<"R">>, measure |-> m, ops |-> IF m = "" THEN <<>> ELSE <<"sum", "max">>])
+     \* at any time: before the data is loaded, on an empty graph, over types with or without relationships
+     \/ /\ "hier" \in Extras /\ G.hier = {}
+        /\ \E m \in {"", "p"}, ts \in HierTypeChoices :
+              /\ DeclareHier("hx", {ts[i] : i \in DOMAIN ts}, m, IF m = "" THEN {} ELSE {"sum", "max"}) /\ UNCHANGED used
+              /\ H([op |-> "Hier", name |-> "hx", types |-> ts, measure |-> m, ops |-> IF m = "" THEN <<>> ELSE <<"sum", "max">>])
 
 \* a history ends with RoundTrip, at the latest as step MaxHist
 Next ==
   /\ ~Done
   /\ \/ Len(hist) < MaxHist - 1 /\ Build
-     \/ Handles(G.nodes) # {} /\ UNCHANGED <<G, used>> /\ H([op |-> "RoundTrip"])
+     \/ (Handles(G.nodes) # {} \/ G.hier # {}) /\ UNCHANGED <<G, used>> /\ H([op |-> "RoundTrip"])
      \/ /\ hist = <<>>
         /\ \E kind \in FamKinds, n \in FamSizes : H([op |-> "FamilyRT", kind |-> kind, n |-> n])
         /\ UNCHANGED <<G, used>>
